@@ -14,3 +14,5 @@ func (c *client) vstate(event string) {}
 
 func vpoolGet(s *channelState) {}
 func vpoolPut(s *channelState) {}
+
+func vtrok(event string, id bin.Bin128, ok bool) {}
